@@ -9,7 +9,9 @@
     [tr] (markers of the client's Add/Remove/Reconnect calls, every environment
     query with its answer, every callback) and be in state [s] afterwards; the
     environment's answers and the moments of Remove/Reconnect are unconstrained,
-    so every statement below holds for all fault scripts and all timings. *)
+    so every statement below holds for all fault scripts and all timings,
+    including calls for the same name made by a second client goroutine while a
+    Remove is in progress ([XCalled] / [XReturned]). *)
 From Coq Require Import List Bool ZArith NArith.
 Import ListNotations.
 From Gnmi Require Import Manager.ManagerModel Manager.ManagerCheck Manager.ManagerProofs
@@ -98,10 +100,14 @@ Proof. exact finished_only_after_remove. Qed.
 Print Assumptions C13_retry_forever_exit_only_by_remove.
 
 (** once Remove has returned there is no callback and no environment query
-    for that name until Add is called again *)
+    for that name unless Add has been called: by the same client goroutine
+    afterwards, or by a second goroutine (possibly while that Remove was still
+    in progress -- such an Add only takes effect after the Remove, see
+    the C13_overlap theorems) *)
 Theorem C13_silence_after_remove :
   forall c a b e b' s,
-  run c init (a ++ ERemoveReturned true :: b ++ e :: b') s -> is_gor e = true -> In EAddCalled b.
+  run c init (a ++ ERemoveReturned true :: b ++ e :: b') s -> is_gor e = true ->
+  In EAddCalled b \/ In (XCalled KAdd) (a ++ b).
 Proof. exact silence_after_remove. Qed.
 Print Assumptions C13_silence_after_remove.
 
@@ -116,12 +122,29 @@ Theorem C13_unknown_remove_refused :
 Proof. exact unknown_remove_refused. Qed.
 Print Assumptions C13_unknown_remove_refused.
 
-Theorem C13_removed_remove_refused :
-  forall c a ok0 m ok s,
-  run c init (a ++ ERemoveReturned ok0 :: m ++ [ERemoveReturned ok]) s ->
-  no_add_ok m = true -> ok = false.
-Proof. exact removed_remove_refused. Qed.
-Print Assumptions C13_removed_remove_refused.
+(** calls for the same name made by a SECOND client goroutine while a Remove is
+    in progress: such a call gets through only once that Remove has completed
+    and the name is unmanaged -- an Add is never accepted while the old target
+    is still managed, it then starts a fresh monitor; *)
+Theorem C13_overlap_call_effect_after_remove :
+  forall c s s' k, In s' (tau c s) -> s_x s = XP k -> s_x s' = XE k ->
+  s_rmc s = false /\ s_pc s = PIdle /\ s_pc s' = (match k with KAdd => PLoop | _ => PIdle end).
+Proof. exact overlap_call_effect_after_remove. Qed.
+Print Assumptions C13_overlap_call_effect_after_remove.
+
+(** while the Remove is in progress none of them has got through; *)
+Theorem C13_overlap_pending_while_remove :
+  forall c tr s, run c init tr s -> s_rmc s = true -> forall k, s_x s <> XE k.
+Proof. exact overlap_pending_while_remove. Qed.
+Print Assumptions C13_overlap_pending_while_remove.
+
+(** and their results are those of calls made after the Remove: Add succeeds,
+    Remove and Reconnect report an unknown target *)
+Theorem C13_overlap_results :
+  forall c a k ok s, run c init (a ++ [XReturned k ok]) s ->
+  ok = match k with KAdd => true | _ => false end.
+Proof. exact overlap_results. Qed.
+Print Assumptions C13_overlap_results.
 
 (** mode A: a log accepted by the executable subset construction is a log of
     the model, ending with the name unmanaged; hence everything above holds of it *)
@@ -132,7 +155,8 @@ Print Assumptions C13_accepts_sound.
 
 Theorem C13_accepts_spec :
   forall c tr, accepts c tr = true ->
-  emits c tr /\ sessions (callbacks tr) /\ k_stream tr = true /\ k_silence false tr = true.
+  emits c tr /\ sessions (callbacks tr) /\ k_stream tr = true /\ k_silence tr = true
+  /\ k_refuse tr = true.
 Proof. exact accepts_spec. Qed.
 Print Assumptions C13_accepts_spec.
 
@@ -147,14 +171,13 @@ Proof. exact k_stream_sound. Qed.
 Print Assumptions C13_k_stream_sound.
 
 Theorem C13_k_silence_sound :
-  forall tr, k_silence false tr = true ->
-  forall a b e b', tr = a ++ ERemoveReturned true :: b ++ e :: b' -> is_gor e = true ->
-                   In EAddCalled b.
+  forall tr, k_silence tr = true ->
+  forall a e b, tr = a ++ e :: b -> is_gor e = true -> In EAddCalled a \/ In (XCalled KAdd) a.
 Proof. exact k_silence_sound. Qed.
 Print Assumptions C13_k_silence_sound.
 
 Theorem C13_k_refuse_sound_add :
-  forall a m ok, k_refuse false (a ++ EAdd true :: m ++ [EAdd ok]) = true ->
+  forall a m ok, k_refuse (a ++ EAdd true :: m ++ [EAdd ok]) = true ->
   no_remove_ok m = true -> ok = false.
 Proof. exact duplicate_add_refused_k. Qed.
 Print Assumptions C13_k_refuse_sound_add.
@@ -164,10 +187,14 @@ Theorem C13_k_backoff_sound :
 Proof. exact k_backoff_sound. Qed.
 Print Assumptions C13_k_backoff_sound.
 
-(** the model satisfies the refusal and silence monitors on every log *)
-Theorem C13_model_refusals : forall c tr s, run c init tr s -> k_refuse false tr = true.
+(** the model satisfies the refusal and silence monitors on every log, overlapping calls included *)
+Theorem C13_model_refusals : forall c tr s, run c init tr s -> k_refuse tr = true.
 Proof. exact model_refusals. Qed.
 Print Assumptions C13_model_refusals.
+
+Theorem C13_model_silence : forall c tr s, run c init tr s -> k_silence tr = true.
+Proof. exact model_silence. Qed.
+Print Assumptions C13_model_silence.
 
 (** attribution of cancellations: a stream is cancelled only by a Reconnect or
     Remove of that name issued before, or by its receive timeout *)
